@@ -125,6 +125,59 @@ def run_sequences(first_ops, length):
   return {'n': n, 'keys': len(keys), 'viol': viol, 'sample': sample}
 
 
+_V2 = None
+
+
+def varz_cls2():
+  """A second metric class with the same metric suffixes under another base name (as the thrift and thriftmux transports have)."""
+  global _V2
+  if _V2 is None:
+    from scales.varz import VarzBase, Counter, Rate, Gauge, AverageTimer
+
+    class VB(VarzBase):
+      _VARZ_BASE_NAME = 'verif.c18b'
+      _VARZ = {'c': Counter, 'r': Rate, 'g': Gauge, 't': AverageTimer}
+    _V2 = VB
+  return _V2
+
+
+def run_two_classes(length):
+  """Two metric classes with equal suffixes, used with equal sources in every order: every update lands in the series of the
+  class it was made through.  All sequences of `length` updates over (class, kind, source, form)."""
+  from scales.varz import VarzReceiver
+  VA, VB = varz_cls(), varz_cls2()
+  base = {0: 'verif.c18.', 1: 'verif.c18b.'}
+  ops = [(cls, kind, ti, style) for cls in (0, 1) for kind in ('c', 'g') for ti in (0, 1) for style in (0, 1)]
+  viol = []
+  n = 0
+  for seq in itertools.product(ops, repeat=length):
+    if len(set(o[0] for o in seq)) < 2:
+      continue
+    n += 1
+    VarzReceiver.VARZ_DATA.clear()
+    model = {}
+    for step, (cls, kind, ti, style) in enumerate(seq):
+      V = (VA, VB)[cls]
+      src = fresh(TUPLES[ti])
+      amount = step + 1
+      if style == 1:
+        getattr(V(src), kind)(amount)
+      else:
+        getattr(V, kind)(src, amount)
+      key = (base[cls] + kind, TUPLES[ti])
+      model[key] = model.get(key, 0) + amount if kind == 'c' else amount
+    got = {}
+    for name, series in VarzReceiver.VARZ_DATA.items():
+      if name.startswith('verif.c18'):
+        for src, v in series.items():
+          got[(name, src.to_tuple())] = v
+    if got != model:
+      viol.append({'clause': 'C18.sum', 'message': 'two metric classes with the same suffixes: recorded %r, updates made %r; sequence %r'
+                   % (sorted(got.items()), sorted(model.items()), seq), 'sig': {'two_classes': True}})
+      break
+  return {'n': n, 'keys': n, 'viol': viol, 'sample': {'two_classes_sequences': n}}
+
+
 def run_streams(first_vals, length, values):
   """Every sample stream of `length` values (first fixed) x every outcome of the reservoir's random()."""
   from scales.varz import Source, VarzReceiver, VarzAggregator
@@ -321,6 +374,12 @@ def main(tier, seed):
       rep.add_violations(o['viol'])
       rep.sample(o['sample'])
     rep.part('end to end through the real dispatcher', engine='S (default schedule)', runs=len(out))
+    out = explore.pmap('vt.checks.c18', 'run_two_classes', [(2,), (3,)] if tier == 'quick' else [(2,), (3,), (4,)], pool, seed)
+    for o in out:
+      rep.add('evaluations', o['n'])
+      rep.add_violations(o['viol'])
+      rep.sample(o['sample'])
+    rep.part('two metric classes with equal suffixes and equal sources', engine='E', sequences=sum(o['n'] for o in out))
   finally:
     pool.close()
     pool.join()
